@@ -288,3 +288,16 @@ PROPS["C13"] = {
          "only_tiers": ["thorough"], "fuzztime": {"thorough": "90s"}, "workers": 16, "timeout": {"thorough": 900}},
     ],
 }
+
+PROPS["C07"] = {
+    "level": "exploration",
+    "rule": ("1-4 generated suites (Title-Case names, mode any/client/server, each relevant-* list empty / of length 1 / of length >=2, relies-on TLS / client certs / Connect GET / receive limit, 1-5 test cases with unique slash names and stream types, optional explicit service+method, raw request/response where the mode allows) x config-case sets from parseConfig on default, rich, HTTP/1-only and random configs x the three run modes, through newTestCaseLibrary, allPermutations, casesByServer, filterGRPCImplTestCases; "
+             "oracle: key set == {permutations for which the statement's iff holds} in both directions under the documented name format (axis spelled out iff the suite leaves it open), request markers equal the config case, default service/method per stream type, grouping is a partition keyed by the request's own tuple, three repeated expansions on fresh maps are identical, gRPC-peer permutations == rule table with marked names. "
+             "Non-trivial: >=2 suites of which one is mode-restricted, one relies-on flag, one relevant list of length 1 and one of length >=2."),
+    "assumptions": ["connect_version_mode is left unspecified (no config case carries one)",
+                    "misconfigured suites (missing names, client certs without TLS, ...) are exercised by C02's crash-freedom unit, not here"],
+    "units": [
+        {"name": "C07Expansion", "pkg": CC, "test": "TestVerifC07Expansion", "kind": "rapid",
+         "checks": {"quick": 2500, "thorough": 40000}, "shards": {"quick": 4, "thorough": 16}},
+    ],
+}
